@@ -136,7 +136,7 @@ def run(R, tier, seed, driver_ok):
                     R.violation(f'{name}/rotation-raises-{type(e).__name__}', f'{name}: rotation run raised {type(e).__name__}: {str(e)[:100]}', case)
             # ---- scaling
             if name in ('Covariance', 'RCA'):
-                c = float(rng.choice([0.25, 4.0, 8.0]))
+                c = float(rng.choice([0.25, 4.0, 8.0, 2.0 ** -30, 2.0 ** -40, 2.0 ** 20]))
                 case = {'est': name, 'relation': 'scaling', 'X': X, 'c': c}
                 e2 = fit_on(name, params, X * c, y, build, sd)
                 check('scaling', e2, Qp * c, d0, 1e-9, case) if False else None
@@ -163,6 +163,8 @@ def run(R, tier, seed, driver_ok):
                 pos += sz; continue                                  # left unlabelled
             chunks[order[pos:pos + sz]] = cid; cid += 1; pos += sz
         sizes = np.bincount(chunks[chunks >= 0]) if cid else np.array([])
+        sizes = sizes[sizes > 0]
+        chunks = zoo.relabel_chunks(chunks, rng)              # ids need not be 0..m-1
         if (sizes >= 2).sum() < d + 1:
             continue
         Qp = rng.randn(6, 2, d)
@@ -176,7 +178,7 @@ def run(R, tier, seed, driver_ok):
         tvec = np.round(rng.randn(d) * 8) / 4
         Qm = np.linalg.qr(rng.randn(d, d))[0]
         pm = rng.permutation(n)
-        c = float(rng.choice([0.25, 4.0]))
+        c = float(rng.choice([0.25, 4.0, 2.0 ** -30, 2.0 ** -40, 2.0 ** 20]))     # units of any size (nanometres, kilometres)
         rels = [('translation', X + tvec, chunks, Qp + tvec, d0, 1e-9), ('rotation', X.dot(Qm.T), chunks, Qp.dot(Qm.T), d0, 1e-8),
                 ('permutation', X[pm], chunks[pm], Qp, d0, 1e-9), ('scaling', X * c, chunks, Qp, d0 / c, 1e-9)]
         for tag, X2, ch2, Q2, want, tol in rels:
